@@ -112,6 +112,42 @@ def pre_heavy_graphs(n, sd):
     return out
 
 
+def producer_graphs(n, sd):
+    """A consumer of a configuration marked as produced by a task that itself has pre-/init tasks: the producing
+    task, its pre-tasks and (for the task itself) its init tasks are part of what is identified"""
+    rng = random.Random(sd)
+    out = []
+    for _ in range(n):
+        def node(cls, vals, **kw):
+            d = {"cls": cls, "vals": vals, "meta": "none", "pre": [], "init": [], "task": "0"}
+            d.update(kw)
+            return d
+
+        k = lambda a, c=("none",): {"a": ["int", a], "b": ["int", 5], "c": list(c), "d": ["dict", []], "e": ["none"], "f": ["none"], "g": ["none"],
+                                    "l": ["list", []], "m": ["int", 0], "o": ["int", 9], "s": ["none"], "v": ["int", 3]}
+        g = {
+            "1": node("K", k(rng.choice([1, 2]), ("cfg", "2"))),                                    # consumer
+            "2": node("K2", {"a": ["int", rng.choice([1, 2])], "c": ["none"], "v": ["int", 4]}, task="3"),   # produced by 3
+            "3": node("T0", {"n": ["int", rng.choice([0, 1])], "x": ["none"]}),
+            "4": node("LW", {"k": ["int", rng.choice([1, 2])], "c": ["none"]}),
+            "5": node("LW", {"k": ["int", rng.choice([3, 4])], "c": ["none"]}),
+        }
+        shape = rng.choice(["pre", "pre2", "init", "both", "consumer-pre", "none"])
+        if shape in ("pre", "both"):
+            g["3"]["pre"] = ["4"]
+        if shape == "pre2":
+            g["3"]["pre"] = rng.choice([["4", "5"], ["5", "4"]])
+        if shape in ("init", "both"):
+            g["3"]["init"] = ["5"]
+        if shape == "consumer-pre":
+            g["1"]["pre"] = ["4"]
+            g["2"]["pre"] = ["5"]
+        if rng.random() < 0.3:
+            g["1"]["vals"]["l"] = ["list", [["cfg", "2"]]]
+        out.append(g)
+    return out
+
+
 def edit(g, rng):
     """One small random edit of a graph (may or may not be signature relevant -- TLC decides)"""
     from . import cfgreal as R
@@ -122,6 +158,11 @@ def edit(g, rng):
     node = g[n]
     vals = node["vals"]
     kind = rng.choice(["scalar", "scalar", "meta", "child", "move", "swap", "key", "class", "pre", "sibling"])
+    if node.get("dflt"):
+        # the parent's own copy of a configuration-valued default: it can be edited in place, not replaced
+        node["dflt"] = "edited"
+        if kind == "class":
+            kind = "scalar"
     if kind == "meta":
         node["meta"] = rng.choice([m for m in ("none", "true", "false") if m != node["meta"]])
     elif kind == "class" and node["cls"] in ("K2", "K2Old"):
@@ -275,6 +316,20 @@ def io_conformance(rep, prop, n, sd):
         rep.sample({"graph": cases[0]["g"], "definition_order": cases[0]["defs"], "instances": cases[0]["inst"]})
 
 
+def reload_identifiers(rep, prop, n, sd):
+    """Written, loaded and identified again: a loaded configuration is identified like the original (C03: what was
+    produced by different tasks stays different after a reload)"""
+    gs = graphs(n, sd + 31) + producer_graphs(max(10, n // 3), sd + 32)
+    with pool() as ex:
+        obs = list(ex.map(_w_io, [(g, sd * 17 + i) for i, g in enumerate(gs)], chunksize=10))
+    for i, (case, problems) in enumerate(obs):
+        rep.cov["evaluations"] += 1
+        for pb in problems:
+            if "identifier of reloaded node" in pb:
+                rep.violation(f"{prop}/reload/{pb.split(':')[0]}/identifier differs", f"graph #{i}: {pb}", {"graph": gs[i], "seed": sd * 17 + i, "io": True})
+    rep.cov["reloaded_graphs"] = len(gs)
+
+
 def echo_runs(rep, n, sd):
     from . import cfgecho
 
@@ -292,21 +347,21 @@ def echo_runs(rep, n, sd):
 
 
 FIELDS_OF = {
-    "C01": {"stream", "pretasks"}, "C02": {"stream"}, "C03": {"stream"}, "C20": {"stream"},
+    "C01": {"stream", "pretasks"}, "C02": {"stream"}, "C03": {"stream", "pretasks"}, "C20": {"stream"},
     "C14": {"sealed"}, "C17": {"generated"},
 }
 PYDIFF_OF = {
     "C01": ("full identifier is not", "changed after sealing", "exception"),
     "C02": ("changed after sealing",),
     "C03": ("full identifier is not",),
-    "C14": ("changed after sealing", "sealing"),
-    "C17": ("sealing",),
+    "C14": ("changed after sealing", "raised"),
+    "C17": ("raised",),
     "C20": ("exception",),
 }
 
 
 def conformance_random(rep, prop, n, sd):
-    gs = graphs(n, sd)
+    gs = graphs(n, sd) + (producer_graphs(max(10, n // 8), sd + 5) if prop in ("C01", "C03") else [])
     with pool() as ex:
         obs = list(ex.map(_w_observe, [(g, sd * 7919 + i, True) for i, g in enumerate(gs)], chunksize=20))
     cases, index = [], []
@@ -509,7 +564,7 @@ def run(prop, tier, replay=None):
             case, diffs = _w_io((payload["graph"], payload.get("seed", 0)))
             print("problems:", diffs)
             for d in diffs:
-                if d.startswith(IO_PREFIX.get(prop, ())):
+                if d.startswith(IO_PREFIX.get(prop, ())) or (prop == "C03" and "identifier of reloaded node" in d):
                     rep.violation(f"{prop}/replay", d, payload)
         elif "graph" in payload:
             case, diffs = _w_observe((payload["graph"], payload.get("seed", 0), True))
@@ -531,10 +586,12 @@ def run(prop, tier, replay=None):
         schema_crosscheck(rep, prop)
     if prop == "C01":
         model_check(rep, prop, "MC_Config.tla", "MC_Config_TRUE.cfg", {"IdIsCanonical"}, "all seal / request / assignment / submit histories (view without history)")
+        model_check(rep, prop, "MC_ConfigF18.tla", "MC_ConfigF18_TRUE.cfg", None, "a configuration-valued default: identifier independent of sealing")
         behaviours(rep, prop, tier, sd)
         conformance_random(rep, prop, nq, sd)
         hashseeds(rep, 120 if tier == "quick" else 1500, sd)
         golden(rep)
+        resubmit_paths(rep, 40 if tier == "quick" else 400, sd, "C01")      # the job directory is named by the identifier
     elif prop == "C02":
         model_check(rep, prop, "MC_ConfigSig.tla", "MC_ConfigSig_small.cfg" if tier == "quick" else "MC_ConfigSig.cfg", None,
                     "Enc(x) = Enc(y) <=> Sig(x) = Sig(y) over the value and structure families")
@@ -547,6 +604,7 @@ def run(prop, tier, replay=None):
         pairs(rep, prop, nq * 3, sd)
         conformance_random(rep, prop, nq // 2, sd)
         behaviours(rep, prop, tier, sd)  # the producing task must enter the identifier of a marked output
+        reload_identifiers(rep, prop, nq // 4, sd)
     elif prop == "C14":
         model_check(rep, prop, "MC_Config.tla", "MC_Config_TRUE.cfg", {"SealClosed", "SealedFrozen", "IdIsCanonical"},
                     "sealing is transitive, sealed configurations never change")
@@ -695,12 +753,43 @@ def _w_resubmit(args):
 
     cfgreplay.dry_experiment()
     res = []
+    how = random.Random(sd * 31 + len(json.dumps(graph))).choice(["plain", "init", "pre", "both"])
     for rnd in range(2):
         objs = R.build(graph, None)
         t = S.T0(x=objs["1"], n=4)
-        t.submit()
+        if how in ("pre", "both"):
+            t.add_pretasks(S.LW(k=11, c=S.K2(a=3)))
+        init = [S.LW(k=12, c=S.K(a=2)), S.LW(k=13)] if how in ("init", "both") else []
+        if init:
+            t.submit(init_tasks=init)
+        else:
+            t.submit()
         jobdir = t.__xpm__.job.path
         gen = {}
+        # the job directory is jobs/<type identifier>/<full identifier>, the full identifier being
+        # SHA-256(raw, sorted pre-task identifiers, INIT_TASKS + init-task identifiers in order)
+        from experimaestro.core.objects import HashComputer
+
+        h = hashlib.sha256(t.__xpm__.raw_identifier.all)
+        for x in sorted(p.__xpm__.raw_identifier.all for p in t.__xpm__.collect_pre_tasks()):
+            h.update(x)
+        if init:
+            h.update(HashComputer.INIT_TASKS)
+            for i in init:
+                h.update(i.__xpm__.raw_identifier.all)
+        if jobdir.name != h.hexdigest() or jobdir.parent.name != str(t.__xpmtype__.identifier):
+            gen["jobdir"] = f"NOTCANONICAL:{jobdir.parent.name}/{jobdir.name} ({how})"
+        extra = {f"pre{i}": o for i, o in enumerate(t.__xpm__.pre_tasks)}
+        extra.update({f"init{i}": o for i, o in enumerate(init)})
+        for name, lw in extra.items():
+            c = lw.c
+            if c is not None and c.__xpm__._sealed:
+                a = {"K": "p", "K2": "q"}[type(c).__mro__[2].__name__ if hasattr(type(c), "__mro__") else "K"] if False else ("p" if isinstance(c, S.K) else "q")
+                v = Path(c.__xpm__.values[a])
+                try:
+                    gen[name] = str(v.resolve().relative_to(jobdir.resolve()))
+                except ValueError:
+                    gen[name] = "OUTSIDE:" + str(v)
         for n, o in objs.items():
             a = {"K": "p", "K2": "q", "K2Old": "q", "G": "p"}.get(graph[n]["cls"])
             if a and o.__xpm__._sealed:
@@ -713,8 +802,8 @@ def _w_resubmit(args):
     return res
 
 
-def resubmit_paths(rep, n, sd):
-    gs = [g for g in graphs(n * 3, sd + 9) if all(x["cls"] in ("K", "K2", "K2Old", "V", "G") and not x["pre"] for x in g.values())
+def resubmit_paths(rep, n, sd, prop="C17"):
+    gs = [g for g in graphs(n * 3, sd + 9) if all(x["cls"] in ("K", "K2", "K2Old", "V", "G", "PX", "QX", "N", "DH") and not x["pre"] for x in g.values())
           and _acyclic(g)][:n]
     with pool() as ex:
         out = list(ex.map(_w_resubmit_safe, [(g, sd) for g in gs], chunksize=5))
@@ -724,6 +813,12 @@ def resubmit_paths(rep, n, sd):
             rep.violation("C17/submit/exception", f"graph #{i}: {r}", {"graph": g})
             continue
         a, b = r
+        for x in (a, b):
+            if "jobdir" in x:
+                rep.violation(f"{prop}/jobdir-not-canonical", f"graph #{i}: the job directory is not jobs/<type identifier>/<full identifier>: {x['jobdir']}", {"graph": g})
+                break
+        if prop != "C17":
+            continue
         if a != b:
             rep.violation("C17/reproducible", f"graph #{i}: the same configuration submitted again gets other generated paths", {"graph": g})
         if any(v.startswith("OUTSIDE") for v in a.values()):
